@@ -183,6 +183,9 @@ func checkC16(w *World, r *Report) {
 					if typeString(a.Type()) == tInt {
 						if g := globalOfLoad(a); g != nil {
 							splitAmounts = append(splitAmounts, g.Name())
+						} else if gs := tableFieldGlobals(a); len(gs) > 0 {
+							// the calls were folded into a loop over a literal table: one amount per row
+							splitAmounts = append(splitAmounts, gs...)
 						} else {
 							splitAmounts = append(splitAmounts, "?")
 						}
@@ -223,11 +226,22 @@ func checkC16(w *World, r *Report) {
 		for _, p := range persists {
 			ok := len(splits) > 0
 			for _, s := range splits {
-				if !OnSuccessEdge(mavp, p.Instr, siteValue(s)) {
+				// a failed split ends the upgrade step with an error (so the persist is never reached after a failure) ...
+				fail := NilEdges(mavp, errValues(mavp, siteValue(s)), false)
+				if len(fail) == 0 {
+					ok = false
+				}
+				for _, e := range fail {
+					if !FailsFrom(e.To()) {
+						ok = false
+					}
+				}
+				// ... and no split follows the persist (straight-line calls or a loop over a table alike)
+				if instrReachableFrom(p.Instr, s.Instr) {
 					ok = false
 				}
 			}
-			r.Check(ok, "C16.atomic", "persist after every split succeeded", w.Pos(p.Instr.Pos()), fmt.Sprintf("dominated by the success edges of %d splits", len(splits)), "the pools can be persisted after only some of the splits")
+			r.Check(ok, "C16.atomic", "persist after every split succeeded", w.Pos(p.Instr.Pos()), fmt.Sprintf("every failure edge of the %d split call site(s) returns the error; no split is reachable after the persist", len(splits)), "the pools can be persisted after only some of the splits")
 		}
 	}
 	// ---------- C16.fieldwise ----------
@@ -239,7 +253,31 @@ func checkC16(w *World, r *Report) {
 		}
 		vals := map[string]ssa.Value{}
 		var owner ssa.Value
-		for _, fs := range FieldStores(fn) {
+		// the conversion may be split over helpers of the migration package: look at the function and at the module
+		// functions it calls (depth 2)
+		fnset := []*ssa.Function{fn}
+		for d := 0; d < 2; d++ {
+			for _, f := range append([]*ssa.Function{}, fnset...) {
+				for _, cs := range cg.Sites[f] {
+					if h := cs.Common().StaticCallee(); h != nil && h.Blocks != nil && w.isProdFunc(h) && h.Pkg == fn.Pkg {
+						dup := false
+						for _, x := range fnset {
+							if x == h {
+								dup = true
+							}
+						}
+						if !dup {
+							fnset = append(fnset, h)
+						}
+					}
+				}
+			}
+		}
+		var allStores []FieldStore
+		for _, f := range fnset {
+			allStores = append(allStores, FieldStores(f)...)
+		}
+		for _, fs := range allStores {
 			if fs.Struct == nil {
 				continue
 			}
@@ -280,8 +318,16 @@ func checkC16(w *World, r *Report) {
 		// every old pool is appended: the inner loop appends on every path
 		okAll := true
 		n := 0
-		for _, l := range rangeLoops(fn) {
-			if l.Over != nil && loadOfField(l.Over, "VestingPools", nil) {
+		var allLoops []rangeLoop
+		for _, f := range fnset {
+			allLoops = append(allLoops, rangeLoops(f)...)
+		}
+		for _, l := range allLoops {
+			overPools := l.Over != nil && loadOfField(l.Over, "VestingPools", nil)
+			if p, isParam := l.Over.(*ssa.Parameter); isParam && strings.Contains(typeString(p.Type()), "VestingPool") && !strings.Contains(typeString(p.Type()), "AccountVestingPool") {
+				overPools = true // a helper that is handed the old pools
+			}
+			if overPools {
 				n++
 				if loopEarlyExit(l) != nil {
 					okAll = false
@@ -368,4 +414,106 @@ func isObjectReadBy(v ssa.Value, suffix string) bool {
 		}
 	}
 	return false
+}
+
+// tableFieldGlobals: v is a field of the element of a literal table (a slice or array literal of structs) that a
+// loop ranges over; it returns the names of the package-level variables stored in that field, one per row.
+func tableFieldGlobals(v ssa.Value) []string {
+	var field int = -1
+	var elem ssa.Value
+	switch x := v.(type) {
+	case *ssa.Field:
+		field, elem = x.Field, x.X
+	case *ssa.UnOp:
+		if fa, ok := x.X.(*ssa.FieldAddr); ok && x.Op == token.MUL {
+			field, elem = fa.Field, fa.X
+		}
+	}
+	if field < 0 {
+		return nil
+	}
+	// elem: load of IndexAddr(slice, i), the IndexAddr itself, or a local copy of the row (for _, p := range table)
+	var ia *ssa.IndexAddr
+	var findIA func(e ssa.Value, d int)
+	findIA = func(e ssa.Value, d int) {
+		if d > 4 || ia != nil {
+			return
+		}
+		switch x := e.(type) {
+		case *ssa.IndexAddr:
+			ia = x
+		case *ssa.UnOp:
+			findIA(x.X, d+1)
+		case *ssa.Alloc:
+			for _, ref := range *x.Referrers() {
+				if st, ok := ref.(*ssa.Store); ok && st.Addr == ssa.Value(x) {
+					findIA(st.Val, d+1)
+				}
+			}
+		}
+	}
+	findIA(elem, 0)
+	if ia == nil {
+		return nil
+	}
+	base := ia.X
+	for i := 0; i < 4; i++ {
+		switch b := base.(type) {
+		case *ssa.Slice:
+			base = b.X
+		case *ssa.UnOp:
+			base = b.X
+		case *ssa.Phi:
+			if len(b.Edges) > 0 {
+				base = b.Edges[0]
+			}
+		}
+	}
+	arr, ok := base.(*ssa.Alloc)
+	if !ok {
+		return nil
+	}
+	var out []string
+	fieldStores := func(owner ssa.Value) {
+		for _, r2 := range *owner.Referrers() {
+			y, ok := r2.(*ssa.FieldAddr)
+			if !ok || y.Field != field {
+				continue
+			}
+			for _, r3 := range *y.Referrers() {
+				if st, ok := r3.(*ssa.Store); ok && st.Addr == ssa.Value(y) {
+					if g := globalOfLoad(st.Val); g != nil {
+						out = append(out, g.Name())
+					} else {
+						out = append(out, "?")
+					}
+				}
+			}
+		}
+	}
+	for _, ref := range *arr.Referrers() {
+		row, ok := ref.(*ssa.IndexAddr)
+		if !ok {
+			continue
+		}
+		if _, isConst := row.Index.(*ssa.Const); !isConst {
+			continue
+		}
+		n := len(out)
+		fieldStores(row)
+		if len(out) > n {
+			continue
+		}
+		// the row is assigned as a whole from a composite-literal local
+		for _, r2 := range *row.Referrers() {
+			if st, ok := r2.(*ssa.Store); ok && st.Addr == ssa.Value(row) {
+				if ld, ok := st.Val.(*ssa.UnOp); ok {
+					if lit, ok := ld.X.(*ssa.Alloc); ok {
+						fieldStores(lit)
+					}
+				}
+			}
+		}
+	}
+	return out
 }
